@@ -33,7 +33,7 @@ NT_FLOOR = 0.1
 def plan_st(draw, tier, max_prefix=6, max_cont=8):
     cfg = draw(gen.config_st(metrics=gen.SAFE_METRICS, arm_kinds=("int", "str", "float"), max_arms=4, with_binarizer=True, scale_ok=True,
                              defaults_ok=True, n_jobs_choices=(1, 1, 1, 1, 1, 2)))
-    h = gen.History(draw, cfg, max_rows=8, series_queries=True)
+    h = gen.History(draw, cfg, max_rows=8, series_queries=True, refit_new_d=True)
     mode = draw(st.sampled_from(["trained", "trained", "trained", "unfitted"]))
     if mode == "unfitted":
         for _ in range(draw(st.integers(0, 2))):
